@@ -66,8 +66,17 @@ def check_json(inp):
     o = obs.classes()[ver](s)
     docs = {}
     fails = []
-    for sort in (False, True):
-        for minimal in (False, True):
+    # in which order the four documents are asked for, and which other accessors were called before, is a function of the case
+    h = runner.h64(s)
+    order4 = [(False, False), (False, True), (True, False), (True, True)]
+    order4 = order4[h % 4:] + order4[:h % 4]
+    from . import c18
+    A_ = c18.accessors(ver)
+    names_ = sorted(n for n in A_ if not n.startswith("json"))
+    for i in range((h >> 4) % 3):
+        A_[names_[(h >> (8 + 8 * i)) % len(names_)]](o)
+    for sort, minimal in order4:
+        if True:
             j = o.as_json(sort=sort, minimal=minimal)
             tag = "sort=%s,minimal=%s" % (sort, minimal)
             docs[(sort, minimal)] = j
